@@ -96,6 +96,11 @@ func vfProcessInit() {
 				}
 			}
 		}
+		memdb.OnCall = func(name string) {
+			if vsched.Active() && vsched.Value("store-yield") != nil {
+				vsched.Yield("store:" + name)
+			}
+		}
 		vsched.KeyOrder = func(k any) (string, bool) {
 			switch v := k.(type) {
 			case *Session:
